@@ -164,6 +164,10 @@ PROPS["C09"]["parts"].append(dict(name="racepub09", domain="resume", domain_modu
 # panicking bodies included (a Sequential handler that panics must give its mutex back)
 PROPS["C07"]["parts"].append(dict(name="bus07", domain="bus", domain_module="bus", gen=bus.make_gen("C07"), n_quick=200, n_thorough=6000, chunk=128))
 
+# C06's "every delivery to an Async handler whose publish context stays live runs exactly once": the sequential machine with
+# mostly Async handlers on persistent buses with a persistence timeout (the goroutines run after the publish has returned)
+PROPS["C06"]["parts"].append(dict(name="bus06", domain="bus", domain_module="bus", gen=bus.make_gen("C06"), n_quick=200, n_thorough=6000, chunk=128))
+
 # C06's Shutdown sentence: model M2s + a timing-based harness (blocked async handlers, context expiry, counting Close)
 PROPS["C06"]["parts"].append(dict(name="shutdown06", domain="shutdown", domain_module="shutdown", gen=shutdown.gen, n_quick=40, n_thorough=1500, chunk=8, jobs=8))
 PROPS["C06"]["level_note"] = PROPS["C06"]["level_note"].replace("Shutdown (nil only after Wait, store closed only then, ctx error ⇒ store not closed) is not in the model: not claimed by a theorem, covered by no correspondence yet – PARTIAL for the Shutdown sentence of the property.",
